@@ -6,8 +6,10 @@ A *scenario* (plain JSON-able dict) describes one C++17 program:
     policy    'default' (stock debug, release with ndebug) | 'ind' (stock facets + basic_indirect_vptr, really in the
               facet list) | 'map' (vptr_map, no hash) | 'vec' (vptr_vector, no hash, custom integer RTTI) | 'indvec'
     flags     {ndebug, sanitize}
-    classes   [{id, bases: [[base, virtual01], ...], since: n, registered: bool}]   since = number of the update
-                                                                                   before which it is registered
+    classes   [{id, bases: [[base, virtual01], ...], since: n, registered: bool, until?: n, dynamic?: bool}]
+              since = number of the update before which it is registered; dynamic: registered through a
+              std::optional<class_declaration<...>> (dynamic lifetime); until = number of the update before which that
+              registration object is destroyed (the class is compiled by updates since <= e < until)
     methods   [{id, roots: [r0] | [r0, r1], defs: [{classes: [..], since: n}]}]
               each method exists in three versions with the same definitions: m<k>(virtual_ptr<r0>[, virtual_<r1&>]),
               s<k>(virtual_shared_ptr<r0>[, ..]) and the reference twin r<k>(virtual_<r0&>[, ..])
@@ -96,7 +98,8 @@ def cls_of(scn):
 
 
 def registered_at(scn, epoch):
-    return [c['id'] for c in scn['classes'] if c.get('registered', True) and c.get('since', 1) <= epoch]
+    return [c['id'] for c in scn['classes']
+            if c.get('registered', True) and c.get('since', 1) <= epoch and epoch < c.get('until', 1 << 30)]
 
 
 def cname(scn, i):
@@ -161,12 +164,15 @@ class Builder:
             self.use(name, ident=True)
         return name
 
+    def live(self, cls):
+        return cls in registered_at(self.scn, self.epoch)
+
     def methods_for(self, pname):
         p = self.ptrs[pname]
         return [m for m in self.scn['methods'] if is_base(self.H, m['roots'][0], p['stat'])]
 
     def pick_other(self, m, first_cls):
-        cands = [o for o in self.objs.values() if is_base(self.H, m['roots'][1], o['cls'])
+        cands = [o for o in self.objs.values() if is_base(self.H, m['roots'][1], o['cls']) and self.live(o['cls'])
                  and dispatch(self.scn, m, self.epoch, [first_cls, o['cls']])]
         return self.rng.choice(cands)['name'] if cands else None
 
@@ -257,8 +263,9 @@ class Builder:
     def old_pointers(self, k):
         """after an update: use pointers made before it"""
         indirect = config_of(self.scn)[2]
-        old = [n for n in self.order if self.ptrs[n]['alive'] and self.ptrs[n]['epoch'] < self.epoch]
-        # the class must still be compiled (always true here: nothing is ever unregistered)
+        # the class must still be compiled by the last update (a dynamically registered class may be gone)
+        old = [n for n in self.order if self.ptrs[n]['alive'] and self.ptrs[n]['epoch'] < self.epoch
+               and self.live(self.objs[self.ptrs[n]['obj']]['cls'])]
         pick = self.rng.sample(old, min(k, len(old)))
         pick.sort(key=lambda n: int(n[1:]))
         for n in pick:
@@ -278,7 +285,7 @@ class Builder:
                     self.ptr(pre + 'copy', o, S, src=n)
 
 
-def make_scenario(rng, name, shape, policy, ndebug=False, sanitize=True, late_class=True, size=2):
+def make_scenario(rng, name, shape, policy, ndebug=False, sanitize=True, late_class=True, size=2, dyn_class=False):
     base = SHAPES[shape]
     scn = {'name': name, 'kind': 'c09', 'shape': shape, 'policy': policy,
            'flags': {'ndebug': bool(ndebug), 'sanitize': bool(sanitize)},
@@ -288,6 +295,12 @@ def make_scenario(rng, name, shape, policy, ndebug=False, sanitize=True, late_cl
     if late_class:
         parent = rng.below(n)
         scn['classes'].append({'id': n, 'bases': [[parent, 0]], 'since': 2, 'registered': True})
+    dyn_id = None
+    if dyn_class:
+        # registered through an object with dynamic lifetime, unregistered before the third update: pointers to
+        # objects of the OTHER classes must not notice (no definition mentions this class)
+        dyn_id = len(scn['classes'])
+        scn['classes'].append({'id': dyn_id, 'bases': [[rng.below(n), 0]], 'since': 1, 'until': 3, 'registered': True, 'dynamic': True})
     H = hier_of(scn['classes'])
     roots = [c for c in sorted(H) if not H[c]]
     since = {c['id']: c['since'] for c in scn['classes']}
@@ -298,7 +311,7 @@ def make_scenario(rng, name, shape, policy, ndebug=False, sanitize=True, late_cl
 
         def add_def(s):
             for _ in range(8):
-                t = tuple(rng.choice(descendants(H, r)) for r in rs)
+                t = tuple(rng.choice([d for d in descendants(H, r) if d != dyn_id]) for r in rs)
                 if t in seen:
                     continue
                 seen.add(t)
@@ -329,6 +342,8 @@ def make_scenario(rng, name, shape, policy, ndebug=False, sanitize=True, late_cl
             b.obj(c, False)
     for i, c in enumerate(plain_classes):
         b.routes_on_plain(b.obj(c, False), rich=(i < 2))
+    if dyn_id is not None and dyn_id not in plain_classes:
+        plain_classes.append(dyn_id)
     smart_classes = by_depth[:1] + rng.sample(by_depth[1:], min(max(size - 1, 1), len(by_depth) - 1))
     for i, c in enumerate(smart_classes):
         b.routes_on_smart(b.obj(c, True), rich=(i < 2))
@@ -345,9 +360,9 @@ def make_scenario(rng, name, shape, policy, ndebug=False, sanitize=True, late_cl
 
     b.update(True)
     b.old_pointers(10 if indirect else 3)
-    fresh = [o for o in b.objs.values() if not o['smart']]
+    fresh = [o for o in b.objs.values() if not o['smart'] and b.live(o['cls'])]
     b.routes_on_plain(rng.choice(fresh)['name'], rich=False)
-    sm = [o for o in b.objs.values() if o['smart'] and 'made_by' not in o]
+    sm = [o for o in b.objs.values() if o['smart'] and 'made_by' not in o and b.live(o['cls'])]
     b.routes_on_smart(rng.choice(sm)['name'], rich=False)
     return scn
 
@@ -364,6 +379,8 @@ def make_c15_scenario(rng, name, shape, policy='default', sanitize=True):
     parent = rng.choice([c for c in sorted(H0) if H0[c]] or sorted(H0))
     U = n
     scn['classes'].append({'id': U, 'bases': [[parent, 0]], 'since': 1, 'registered': False})
+    T = n + 1            # registered, seen by the first update, then unregistered (dynamic registration object)
+    scn['classes'].append({'id': T, 'bases': [[parent, 0]], 'since': 1, 'until': 2, 'registered': True, 'dynamic': True})
     H = hier_of(scn['classes'])
     anc = sorted(ancestors(H, U), key=lambda x: (depth(H, x), x))
     root = anc[0]
@@ -415,6 +432,38 @@ def make_c15_scenario(rng, name, shape, policy='default', sanitize=True):
     if D != root:
         case(rng.choice(['s_final_const', 's_final_lvalue', 's_final_rvalue']), sd, rng.choice(proper))
     case('s_final_const', su, rng.choice(anc))
+    # T while it is registered: every route works
+    t, stt = b.obj(T, False), b.obj(T, True)
+    case('exact', t, T)
+    case('final', t, T)
+    case('base', t, rng.choice(anc))
+    case('s_lvalue', stt, T)
+    case('s_final_lvalue', stt, T)
+    case('call_ref', t, root, method=0)
+    # unregister T, update again: static_vptr<T> still holds the table of the first update; T must be diagnosed like U
+    b.update(True)
+    case('exact', d, D)                                   # control
+    case('exact', t, T)
+    case('final', t, T)
+    case('final_fn', t, T)
+    for B in anc:
+        case('base', t, B)
+    case('final', t, rng.choice(anc))                     # wrong dynamic type
+    for r in ('call_ref', 'call_ptr'):
+        case(r, t, root, method=0)
+    for r in ('call_shared', 'call_cshared'):
+        case(r, stt, root, method=0)
+    case('call_second', t, root, method=1, other=d)
+    for r in ('s_const', 's_lvalue', 's_rvalue', 's_xvalue'):
+        case(r, stt, T)
+    case(rng.choice(['s_const', 's_lvalue', 's_rvalue']), stt, rng.choice(anc))
+    case('s_make', None, T)
+    for r in ('s_final_const', 's_final_lvalue', 's_final_rvalue'):
+        case(r, stt, T)
+    case('exact', u, U)                                   # never registered: still diagnosed
+    case('final', u, U)
+    case('s_make', None, U)
+    case('final', d, D)                                   # control
     return scn
 
 
@@ -492,10 +541,13 @@ def expected_trace(scn):
                 out.append(('S %s same=1' % op['ptr'], {'t': 'S', 'op': op}))
         elif t == 'case':
             e = case_expectation(scn, op, objs, epoch)
+            kc = cls_of(scn)[objs[op['obj']]['cls'] if op.get('obj') else op['stat']]
+            hist = ('registered' if kc['id'] in registered_at(scn, epoch) else
+                    'unregistered-after-an-update' if kc.get('registered', True) and kc.get('until', 1 << 30) <= epoch else 'never-registered')
             if e[0] == 'error':
-                out.append(('X %s route=%s error=%s:%s defs=0' % (op['label'], op['route'], e[1], cname(scn, e[2])), {'t': 'X', 'op': op, 'exp': e}))
+                out.append(('X %s route=%s error=%s:%s defs=0' % (op['label'], op['route'], e[1], cname(scn, e[2])), {'t': 'X', 'op': op, 'exp': e, 'hist': hist}))
             else:
-                out.append(('X %s route=%s ok ptr=%s' % (op['label'], op['route'], e[1]), {'t': 'X', 'op': op, 'exp': e}))
+                out.append(('X %s route=%s ok ptr=%s' % (op['label'], op['route'], e[1]), {'t': 'X', 'op': op, 'exp': e, 'hist': hist}))
     out.append(('END', {'t': 'END'}))
     return out
 
@@ -598,6 +650,7 @@ PRELUDE = '''// GENERATED by /verif/harness/h2/gen_c09.py -- scenario %(name)s (
 #include <yorel/yomm2/keywords.hpp>
 #include <cstdio>
 #include <memory>
+#include <optional>
 #include <type_traits>
 #include <utility>
 
@@ -630,8 +683,12 @@ def emit_cpp(scn):
         if custom:
             rt = ' static constexpr type_id static_id = %d; virtual type_id dyn_id() const { return static_id; }' % (i + 1)
         w('struct %s%s {%s long f%d = %d; virtual ~%s() {} };' % (K(scn, i), (' : ' + bs) if bs else '', rt, i, 7000 + i, K(scn, i)))
-    early = [c['id'] for c in scn['classes'] if c.get('registered', True) and c.get('since', 1) == 1]
+    early = [c['id'] for c in scn['classes'] if c.get('registered', True) and c.get('since', 1) == 1 and not c.get('dynamic')]
     w('register_classes(%s, P);' % ', '.join(K(scn, i) for i in early))
+    for c in scn['classes']:
+        if c.get('dynamic'):     # a registration object with dynamic lifetime (plugin load / unload)
+            al = sorted(ancestors(H, c['id']))
+            w('static std::optional<class_declaration<%s, P>> dyn_class_%d;' % (', '.join(K(scn, x) for x in [c['id']] + al), c['id']))
     w('')
 
     def sig(m, ver):
@@ -749,6 +806,12 @@ def emit_cpp(scn):
 
     def late_registrations(epoch):
         for c in scn['classes']:
+            if c.get('dynamic'):
+                if c.get('since', 1) == epoch:
+                    w('    dyn_class_%d.emplace();' % c['id'])
+                if c.get('until') == epoch:
+                    w('    dyn_class_%d.reset();      // the class is unregistered; static_vptr<%s> keeps its old content' % (c['id'], K(scn, c['id'])))
+                continue
             if c.get('registered', True) and c.get('since', 1) == epoch and epoch > 1:
                 al = sorted(ancestors(H, c['id']))
                 w('    static class_declaration<%s, P> late_class_%d;' % (', '.join(K(scn, x) for x in [c['id']] + al), c['id']))
